@@ -1,6 +1,7 @@
 package gorums
 
 import (
+	"context"
 	"errors"
 	"fmt"
 	"strings"
@@ -9,6 +10,16 @@ import (
 // Incomplete is the error returned by a quorum call when the call cannot completed
 // due insufficient non-error replies to form a quorum according to the quorum function.
 var Incomplete = errors.New("incomplete call")
+
+// incompleteCause is the cause reported by a call whose nodes have all answered
+// without a quorum: Incomplete, unless the call's context has ended, in which case
+// the nodes' answers may be consequences of that and the context's error is reported.
+func incompleteCause(ctx context.Context) error {
+	if err := ctx.Err(); err != nil {
+		return err
+	}
+	return Incomplete
+}
 
 // QuorumCallError reports on a failed quorum call.
 type QuorumCallError struct {
